@@ -1,4 +1,4 @@
-import MLPE.Proofs.Plain
+import MLPE.Proofs.PlainDemo
 
 /-!
 # C02 — every run terminates: no deadlock or lost wake-up under any schedule
@@ -62,75 +62,6 @@ The hypotheses are satisfiable by non-trivial programs: a diamond `0 → {1, 2} 
 attempt and is retried is a plain program (`PlainP`, by evaluating `plainCheck`), and running it for a few sections
 (start of `chart.run`, DAG launch, first node tasks) gives live, pending, non-initial states to which the theorems
 apply.  The driver additionally evaluates `plainCheck` on every generated plain program (see evidence). -/
-
-def demoDiamond : Program :=
-  { g := { nodes := [0, 1, 2, 3],
-           edges := [{ u := 0, v := 1, kwarg := some "a" }, { u := 0, v := 2, kwarg := some "a" },
-                     { u := 1, v := 3, kwarg := some "a" }, { u := 2, v := 3, kwarg := some "b" }],
-           attr := fun _ => {}, input := 0, output := 3 },
-    cfg := fun n => if n = 1 then { attempts := some 2, delay := some 1 } else {},
-    body := fun n _ _ k => if n = 1 ∧ k = 1 then .raise ⟨"E0", 1, 0, 0⟩ else .ret (.int n),
-    dflt := fun _ _ => .none,
-    inputKw := [] }
-
-def demoDag : DagRef := { source := 0, dest := some 3, nodes := [0, 1, 2, 3] }
-
-theorem demoDiamond_plain : PlainP demoDiamond demoDag := by
-  apply plainP_of_check (by decide) (fun _ => rfl) (fun _ => rfl)
-  · intro n kw i k v h
-    simp only [demoDiamond] at h
-    split at h
-    · cases h
-    · cases h; exact ⟨rfl, rfl⟩
-  · intro _ _; exact ⟨rfl, rfl⟩
-  · intro _ _; rfl
-
-/-- Boolean form of `OracleOK` -/
-def oracleOKb (P : Program) (s : St) : Choice → Bool
-  | .run t ord _ => match s.tasks[t]? with
-    | some tk => match tk.frames with
-      | [.dagInit d'] => validOrder P s d' ord
-      | _ => true
-    | none => true
-  | _ => true
-
-theorem oracleOK_of_b {P : Program} {s : St} {c : Choice} (h : oracleOKb P s c = true) : OracleOK P s c := by
-  cases c with
-  | run t ord pick =>
-    intro tk d' h1 h2
-    simp only [oracleOKb, h1, h2] at h
-    exact h
-  | gate => trivial
-  | timer => trivial
-  | cancelCaller => trivial
-
-/-- run a list of choices, checking at every step that the run is still pending and the oracle is valid -/
-def liveRun (P : Program) : St → List Choice → Option St
-  | s, [] => some s
-  | s, c :: cs =>
-    if s.outcome.isNone && oracleOKb P s c then
-      match step P s c with
-      | some (s', _) => liveRun P s' cs
-      | none => none
-    else none
-
-theorem live_of_liveRun {P : Program} : ∀ (cs : List Choice) (s s' : St), Live P s → liveRun P s cs = some s' → Live P s'
-  | [], s, s', hl, hr => by simp [liveRun] at hr; exact hr ▸ hl
-  | c :: cs, s, s', hl, hr => by
-    simp only [liveRun] at hr
-    split at hr
-    · next hc =>
-      simp only [Bool.and_eq_true, Option.isNone_iff_eq_none] at hc
-      split at hr
-      · next s1 obs hs => exact live_of_liveRun cs s1 s' (.step hl hc.1 (oracleOK_of_b hc.2) hs) hr
-      · cases hr
-    · cases hr
-
-/-- a schedule of the diamond: node 0 completes, nodes 2 and 1 start (launch order `0,2,1,3`), node 1's first attempt
-fails and its retry timer is armed, node 2 completes, the caller re-checks and goes back to waiting -/
-def demoSchedule : List Choice :=
-  [.run 0 [] 0, .run 1 [0, 2, 1, 3] 0, .run 2 [] 0, .gate 0 0 1, .run 2 [] 0, .run 1 [] 0, .run 4 [] 0, .run 3 [] 0,
-   .gate 1 0 1, .run 4 [] 0, .gate 2 0 1, .run 3 [] 0, .run 0 [] 0]
 
 /-- the theorems apply to a genuine mid-run state: it is live and pending, a retry timer is outstanding, two node tasks
 are done, the launcher is blocked — and (by the theorem, not by evaluation) it is not stuck -/
